@@ -211,7 +211,16 @@ func main() {
 		}
 	}
 
-	if viol == nil && ev.runs == 0 {
+	left := 0
+	for k, v := range ev.probes {
+		if strings.HasPrefix(k, "anomaly_before_any_fault_left_to") {
+			left += v
+		}
+	}
+	if left > 0 {
+		fmt.Printf("note: %d runs showed a wrong answer, a changed earlier result, a panic or no progress while every list was still readable; %s speaks about queries after a fault, so those runs were left to the checks of C11/C13/C14\n", left, ev.prop)
+	}
+	if viol == nil && ev.runs == 0 && left == 0 {
 		trouble("no run was executed within the budget: the check decided nothing")
 	}
 	exit := 0
